@@ -58,6 +58,7 @@ PROBES = [
     "cmd_DIFF0", "cmd_DIFF1", "cmd_DIFF2", "cmd_DIFF3", "cmd_QLPC", "cmd_ZERO", "cmd_BLOCKSIZE", "cmd_BITSHIFT",
     "final_short_block", "refill_beyond_first_read", "negative_word", "qlpc_nonzero_coffset",
     "bitshift_v2_mean", "version_1", "skip_bytes", "ulaw_raw_codes", "shipped_vector", "body_ends_at_read_boundary",
+    "pipe", "decode_after_failed_decode",
 ]
 FAULT_KINDS = ["truncate", "unknown_cmd", "bad_version", "bad_ftype"]
 
@@ -135,7 +136,8 @@ def generate(rng, tier, k):
     if long_run and rng.random() < 0.7:
         # tune the last block so that the compressed body ends exactly at / next to the first 16 KiB read boundary
         fit = 16384 + rng.choice((1, 1, 1, -3, 5, 9, 1021 + 1, 1025))
-    scn = {"plan": plan, "fit_body": fit, "access": rng.choice(("bytesio", "bytesio", "path", "fileobj")), "fault": None,
+    scn = {"plan": plan, "fit_body": fit, "access": rng.choice(("bytesio", "bytesio", "path", "fileobj", "pipe")),
+           "prior_failed_decode": rng.random() < 0.15, "fault": None,
            "dtype_req": "uint8" if (ftype == 8 and rng.random() < 0.3) else None, "hdr_blocks": rng.choice((1, 1, 2)),
            "order_seed": rng.randrange(1 << 20)}
     r = rng.random()
@@ -257,6 +259,11 @@ def _decode(data, access, dt):
     try:
         if access == "bytesio":
             src = io.BytesIO(data)
+        elif access == "pipe":
+            from sim.iosim.c12 import _pipe_reader
+
+            fobj, _t = _pipe_reader(data)
+            src = fobj
         else:
             tmp = tempfile.mkdtemp(prefix="verif-c13-", dir=env.scratch_base())
             path = os.path.join(tmp, "utt.sph")
@@ -385,6 +392,13 @@ def execute(scn, keep_trace=False):
         sig = "v%d/t%d/c%d/M%d/P%d/%s/%s%s" % (plan["version"], ftype, nchan, plan["nmean"], plan["maxnlpc"],
                                                "+".join(sorted(kinds)), fault["kind"] if fault else "-", cut_cls)
     tr.log("file", len(data), access, dt)
+    if scn.get("prior_failed_decode") and "vector" not in scn:
+        # history: the same process has just failed to decode a damaged stream (decoder state must not leak)
+        res.probe("decode_after_failed_decode")
+        cut = data[: max(1024 + 6, len(data) - max(8, len(data) // 3))]
+        _decode(cut, "bytesio", None)
+    if access == "pipe":
+        res.probe("pipe")
     out, exc, nwarn = _decode(data, access, dt)
     tr.log("result", out, exc)
     if expect_err is None:
